@@ -201,6 +201,19 @@ func (fv *FuncVC) execInstr(in ssa.Instruction) {
 			binds = append(binds, fv.val(b))
 		}
 		r := fv.allocRef()
+		// closure objects are immutable: their code and captured cells are facts about the reference
+		fv.g.declareGlobal("clofn", "(declare-fun clofn (Int) Int)")
+		fv.g.declareGlobal("clobind", "(declare-fun clobind (Int Int) Int)")
+		fv.assume(fmt.Sprintf("(= (clofn %s) %d)", r, fv.g.fnID(funcKey(fn))))
+		for i, b := range binds {
+			if fv.g.sorts.sortOf(b.Typ) == "Int" {
+				bt := b.T
+				if b.Place != nil {
+					bt = fv.placeToValue(b.Place, b.Typ)
+				}
+				fv.assume(fmt.Sprintf("(= (clobind %s %d) %s)", r, i, bt))
+			}
+		}
 		fv.setReg(x, &Val{T: r, Typ: x.Type(), Fn: fn, Bind: binds})
 	case *ssa.MakeChan:
 		r := fv.allocRef()
